@@ -22,6 +22,7 @@ R = [
     (r"interpret\|K1\|index std::vec::Vec<parsing::instructions::Chunk>", "lineage[0] behind `filter(|bl| !bl.is_empty())`; lineage[level + 1] behind the `level + 1 >= lineage.len()` error test"),
     (r"interpret\|K1\|index std::vec::Vec<std::string::String>", "path[0] / path[1..] of LoadPath/WritePath: the optimiser only builds paths with >= 1 element (C09.ONLY)"),
     (r"interpret\|K1\|index std::vec::Vec<std::vec::Vec<u8>>", "capture_buffers[len - 1] in the branch where capture_buffers is not empty"),
+    (r"SourceLocation::<'a>::new\|K4\|Sub usize \[dominated", "underline width end_col - start_col: computed only on the true edge of `end_col > start_col` (a span covering several lines has end_col < start_col); decided structurally, the key changes if the guard goes"),
     (r"interpret\|K4\|(Add|Sub) usize", "ip + 1 / level + 1 / len - 1: ip < chunk.len(), level < lineage.len(), len >= 1 in the non-empty branch"),
     (r"vm::stack::Stack::(pop|peek|peek_mut)\|K2", "stack discipline of compiled code: every instruction pops what the compiler pushed (stated, not proved — DESIGN §5 C07)"),
     (r"ForLoop::new\|K2\|expect Should only be called", "ForLoop::new is only called after can_be_iterated_on() in StartIterate; the two kind sets agree (C07.ITER)"),
